@@ -44,14 +44,6 @@ var kinds = []string{txlab.KBLS, txlab.KED, txlab.KSECP, txlab.KETH, txlab.KMS1,
 
 var roles = []string{"owner", "output", "otherval", "stranger", "seller", "nonseller", "proposer", "nonproposer"}
 
-const (
-	modeHonest = "honest"
-	modeForge  = "forge-owner-pubkey"   // stranger puts the OWNER's public key on the wire, signs with its own key
-	modeClaim  = "claim-proposer"       // certificateResults only: QC.ProposerKey replaced by the signer's key after the committee signed
-	feeDefault = uint64(10000)
-	baseTime   = uint64(1_750_000_000_000_000)
-)
-
 func targetsFor(msg string) []string {
 	switch msg {
 	case fsm.MessageStakeName:
@@ -64,325 +56,6 @@ func targetsFor(msg string) []string {
 		return []string{"fresh", "order-open", "order-locked"}
 	}
 	return []string{"fresh"}
-}
-
-// CaseID identifies one grid point (and, with Tamper, one tampered variant of it).
-type CaseID struct {
-	Msg    string `json:"msg"`
-	Kind   string `json:"kind"`
-	Target string `json:"target"`
-	Role   string `json:"role"`
-	Mode   string `json:"mode"`
-	Tamper string `json:"tamper,omitempty"`
-}
-
-func (c CaseID) String() string {
-	s := fmt.Sprintf("%s/%s/%s/%s/%s", c.Msg, c.Kind, c.Target, c.Role, c.Mode)
-	if c.Tamper != "" {
-		s += "/" + c.Tamper
-	}
-	return s
-}
-
-// built is a constructed case with the reference verdict.
-type built struct {
-	id       CaseID
-	raw      []byte
-	wireAddr []byte          // address of the public key that is on the wire (who the chain will believe signed)
-	actual   *txlab.Signer   // who really produced the signature
-	auth     []*txlab.Signer // reference: principals whose keys may authorize this message in this state
-	sigValid bool            // by construction: signature made by the wire key (threshold met) over exactly this content
-	na       string
-}
-
-func (b *built) authorized() bool {
-	for _, a := range b.auth {
-		if bytes.Equal(a.Addr, b.wireAddr) {
-			return true
-		}
-	}
-	return false
-}
-
-type msgPlan struct {
-	msg    lib.MessageI
-	auth   []*txlab.Signer
-	owner  *txlab.Signer
-	output *txlab.Signer
-	qc     *lib.QuorumCertificate
-}
-
-// plan builds the message of a grid point and the reference authorized set. `self` is the
-// signer when the message format forces sender = signer (plain RLP transfers).
-func plan(l *txlab.Lab, id CaseID, self *txlab.Signer) (*msgPlan, string) {
-	w := l.W
-	base := txlab.BaseKind(id.Kind)
-	p := w.P[base]
-	isBLS := base == txlab.KBLS
-	val := func() (addr []byte, op, out *txlab.Signer, exists bool) {
-		switch id.Target {
-		case "fresh":
-			return p[txlab.PN].Addr, p[txlab.PN], p[txlab.POUT], false
-		case "custodial":
-			if id.Msg == fsm.MessageUnpauseName && isBLS {
-				return p[txlab.PVCP].Addr, p[txlab.PVCP], p[txlab.PVCP], true
-			}
-			return p[txlab.PVC].Addr, p[txlab.PVC], p[txlab.PVC], true
-		default:
-			if id.Msg == fsm.MessageUnpauseName && isBLS {
-				return p[txlab.PVNP].Addr, p[txlab.PVNP], p[txlab.POUT], true
-			}
-			return p[txlab.PVN].Addr, p[txlab.PVN], p[txlab.POUT], true
-		}
-	}
-	order := func() (oid []byte, seller *txlab.Signer) {
-		switch id.Target {
-		case "order-open":
-			return w.OrderID(base, "open"), p[txlab.PA]
-		case "order-locked":
-			return w.OrderID(base, "locked"), p[txlab.PA]
-		}
-		return w.OrderID(base, "does-not-exist"), nil
-	}
-	a := p[txlab.PA]
-	pl := &msgPlan{owner: a, output: p[txlab.POUT], auth: []*txlab.Signer{a}}
-	committees, netAddr := []uint64{w.ChainID}, "tcp://edited"
-	if !isBLS {
-		committees, netAddr = []uint64{txlab.RemoteChain}, ""
-	}
-	switch id.Msg {
-	case fsm.MessageSendName:
-		from := a
-		if self != nil {
-			from = self
-			pl.auth, pl.owner = []*txlab.Signer{self}, self
-		}
-		pl.msg = &fsm.MessageSend{FromAddress: from.Addr, ToAddress: w.Recipient, Amount: 1000}
-	case fsm.MessageStakeName:
-		if id.Target == "fresh" {
-			n, out := p[txlab.PN], p[txlab.POUT]
-			pl.msg = &fsm.MessageStake{PublicKey: n.Pub, Amount: txlab.Stake, Committees: committees, NetAddress: netAddr, OutputAddress: out.Addr, Delegate: !isBLS, Compound: true}
-			pl.owner, pl.output, pl.auth = n, out, []*txlab.Signer{n, out}
-		} else {
-			vc := p[txlab.PVC]
-			pl.msg = &fsm.MessageStake{PublicKey: vc.Pub, Amount: txlab.Stake, Committees: committees, NetAddress: netAddr, OutputAddress: vc.Addr, Delegate: !isBLS, Compound: true}
-			pl.owner, pl.output, pl.auth = vc, vc, []*txlab.Signer{vc}
-		}
-	case fsm.MessageEditStakeName:
-		addr, op, out, exists := val()
-		newOut := out.Addr
-		if id.Target == "noncustodial-redirect" {
-			newOut = p[txlab.PX].Addr
-		}
-		pl.msg = &fsm.MessageEditStake{Address: addr, Amount: txlab.Stake + 1000, Committees: committees, NetAddress: netAddr, OutputAddress: newOut, Compound: false}
-		pl.owner, pl.output, pl.auth = op, out, nil
-		if exists {
-			pl.auth = []*txlab.Signer{op, out}
-		}
-	case fsm.MessageUnstakeName, fsm.MessagePauseName, fsm.MessageUnpauseName:
-		addr, op, out, exists := val()
-		switch id.Msg {
-		case fsm.MessageUnstakeName:
-			pl.msg = &fsm.MessageUnstake{Address: addr}
-		case fsm.MessagePauseName:
-			pl.msg = &fsm.MessagePause{Address: addr}
-		default:
-			pl.msg = &fsm.MessageUnpause{Address: addr}
-		}
-		pl.owner, pl.output, pl.auth = op, out, nil
-		if exists {
-			pl.auth = []*txlab.Signer{op, out}
-		}
-	case fsm.MessageChangeParameterName:
-		v, _ := lib.NewAny(&lib.UInt64Wrapper{Value: 10001})
-		pl.msg = &fsm.MessageChangeParameter{ParameterSpace: fsm.ParamSpaceFee, ParameterKey: fsm.ParamSendFee, ParameterValue: v, StartHeight: 1, EndHeight: 1000, Signer: a.Addr}
-	case fsm.MessageDAOTransferName:
-		pl.msg = &fsm.MessageDAOTransfer{Address: a.Addr, Amount: 5000, StartHeight: 1, EndHeight: 1000}
-	case fsm.MessageCertificateResultsName:
-		c0 := w.Committee(0)
-		qc, err := remoteQC(l, c0.Pub)
-		if err != nil {
-			return nil, "cannot build certificate: " + err.Error()
-		}
-		pl.msg, pl.qc = &fsm.MessageCertificateResults{Qc: qc}, qc
-		pl.owner, pl.auth = c0, []*txlab.Signer{c0}
-		if !isBLS {
-			pl.owner = nil
-		}
-	case fsm.MessageSubsidyName:
-		pl.msg = &fsm.MessageSubsidy{Address: a.Addr, ChainId: txlab.RemoteChain, Amount: 7000}
-	case fsm.MessageCreateOrderName:
-		pl.msg = &fsm.MessageCreateOrder{ChainId: txlab.RemoteChain, AmountForSale: txlab.OrderAmount, RequestedAmount: 500, SellerReceiveAddress: w.Recipient, SellersSendAddress: a.Addr}
-	case fsm.MessageEditOrderName:
-		oid, seller := order()
-		pl.msg = &fsm.MessageEditOrder{OrderId: oid, ChainId: txlab.RemoteChain, AmountForSale: txlab.OrderAmount + 1_000_000_000, RequestedAmount: 600, SellerReceiveAddress: w.Recipient}
-		pl.auth = nil
-		if seller != nil {
-			pl.auth = []*txlab.Signer{seller}
-		}
-	case fsm.MessageDeleteOrderName:
-		oid, seller := order()
-		pl.msg = &fsm.MessageDeleteOrder{OrderId: oid, ChainId: txlab.RemoteChain}
-		pl.auth = nil
-		if seller != nil {
-			pl.auth = []*txlab.Signer{seller}
-		}
-	case fsm.MessageDexLimitOrderName:
-		pl.msg = &fsm.MessageDexLimitOrder{ChainId: txlab.RemoteChain, AmountForSale: 1000, RequestedAmount: 10, Address: a.Addr}
-	case fsm.MessageDexLiquidityDepositName:
-		pl.msg = &fsm.MessageDexLiquidityDeposit{ChainId: txlab.RemoteChain, Amount: 1000, Address: a.Addr}
-	case fsm.MessageDexLiquidityWithdrawName:
-		pl.msg = &fsm.MessageDexLiquidityWithdraw{ChainId: txlab.RemoteChain, Percent: 10, Address: a.Addr}
-	default:
-		return nil, "unknown message"
-	}
-	return pl, ""
-}
-
-// remoteQC builds a certificate of the nested chain signed by its whole committee.
-func remoteQC(l *txlab.Lab, proposerKey []byte) (*lib.QuorumCertificate, error) {
-	rootHeight := l.C.Height() - 1
-	vs, err := l.C.FSM.LoadCommittee(txlab.RemoteChain, rootHeight)
-	if err != nil {
-		return nil, err
-	}
-	results := &lib.CertificateResult{
-		RewardRecipients: &lib.RewardRecipients{PaymentPercents: []*lib.PaymentPercents{{Address: env.Addr(env.BLS(0)).Bytes(), Percent: 100, ChainId: txlab.RemoteChain}}},
-		SlashRecipients:  &lib.SlashRecipients{},
-	}
-	resBz, err := lib.Marshal(results)
-	if err != nil {
-		return nil, err
-	}
-	qc := &lib.QuorumCertificate{
-		Header:      &lib.View{NetworkId: l.W.NetworkID, ChainId: txlab.RemoteChain, Height: 1, RootHeight: rootHeight, Phase: lib.Phase_PRECOMMIT_VOTE},
-		Results:     results,
-		ResultsHash: crypto.Hash(resBz),
-		BlockHash:   crypto.Hash([]byte("verif-remote-block")),
-		ProposerKey: proposerKey,
-	}
-	sb := qc.SignBytes()
-	mk := vs.MultiKey.Copy()
-	for i, v := range vs.ValidatorSet.ValidatorSet {
-		k := env.KeyForPub(v.PublicKey)
-		if k == nil {
-			return nil, fmt.Errorf("no key for committee member")
-		}
-		if e := mk.AddSigner(k.Sign(sb), i); e != nil {
-			return nil, e
-		}
-	}
-	sig, e := mk.AggregateSignatures()
-	if e != nil {
-		return nil, e
-	}
-	qc.Signature = &lib.AggregateSignature{Signature: sig, Bitmap: mk.Bitmap()}
-	return qc, nil
-}
-
-func resolveRole(l *txlab.Lab, id CaseID, pl *msgPlan) *txlab.Signer {
-	base := txlab.BaseKind(id.Kind)
-	p := l.W.P[base]
-	switch id.Role {
-	case "owner":
-		return pl.owner
-	case "output":
-		return pl.output
-	case "otherval":
-		return p[txlab.PVO]
-	case "stranger":
-		return p[txlab.PX]
-	case "seller":
-		return p[txlab.PA]
-	case "nonseller":
-		return p[txlab.PS2]
-	case "proposer":
-		if base == txlab.KBLS {
-			return l.W.Committee(0)
-		}
-	case "nonproposer":
-		if base == txlab.KBLS {
-			return l.W.Committee(1)
-		}
-	}
-	return nil
-}
-
-// build constructs the signed transaction of a grid point.
-func build(l *txlab.Lab, id CaseID, seq uint64) *built {
-	b := &built{id: id}
-	base := txlab.BaseKind(id.Kind)
-	isRLP := id.Kind == txlab.KRLP || id.Kind == txlab.KRLPV2
-	if isRLP {
-		if _, ok := txlab.RLPTypes[id.Msg]; !ok {
-			b.na = "message type cannot be RLP wrapped"
-			return b
-		}
-		if id.Mode != modeHonest {
-			b.na = "mode not expressible for RLP (the key is recovered from the signature)"
-			return b
-		}
-	}
-	if id.Mode == modeClaim && id.Msg != fsm.MessageCertificateResultsName {
-		b.na = "claim-proposer applies to certificateResults only"
-		return b
-	}
-	// first pass without self to find the signer, second pass when the format forces sender=signer
-	pl, na := plan(l, id, nil)
-	if na != "" {
-		b.na = na
-		return b
-	}
-	signer := resolveRole(l, id, pl)
-	if signer == nil {
-		b.na = "role has no principal of this key kind"
-		return b
-	}
-	if isRLP && id.Msg == fsm.MessageSendName {
-		pl, _ = plan(l, id, signer)
-	}
-	if isRLP && id.Msg == fsm.MessageStakeName {
-		// an Ethereum wrapper cannot carry a non-delegate (BLS) stake for an eth key
-		pl.msg.(*fsm.MessageStake).Delegate = true
-	}
-	b.actual, b.auth = signer, pl.auth
-	o := txlab.TxOpts{Created: l.C.Height(), Time: baseTime + seq, Fee: feeDefault + seq%97, Net: l.W.NetworkID, Chain: l.W.ChainID}
-	if id.Mode == modeClaim {
-		// the signer re-labels itself as the certificate's proposer (committee signature untouched)
-		pl.qc.ProposerKey = signer.Pub
-	}
-	switch {
-	case isRLP:
-		o.Fee = feeDefault + seq%9973 // gas doubles as time entropy in the wrapper
-		o.Created = l.C.Height()
-		raw, _, err := txlab.WrapRLP(pl.msg, signer, id.Kind == txlab.KRLPV2, o)
-		if err != nil {
-			b.na = "wrap: " + err.Error()
-			return b
-		}
-		b.raw, b.wireAddr, b.sigValid = raw, signer.Addr, true
-	default:
-		tx := txlab.Unsigned(pl.msg, o)
-		pos := txlab.MsPositions(id.Kind)
-		b.raw = txlab.SignNative(tx, signer, pos)
-		b.wireAddr = signer.Addr
-		b.sigValid = id.Kind != txlab.KMS1 // one cosigner of a 2-of-3 account is below the threshold
-		if id.Mode == modeForge {
-			if pl.owner == nil || bytes.Equal(pl.owner.Addr, signer.Addr) {
-				b.na = "no distinct owner to impersonate"
-				return b
-			}
-			// keep the stranger's signature, present the owner's public key
-			tx.Signature.PublicKey = pl.owner.Pub
-			if base == "ms" {
-				// same bitmap as the forged cosigner set so that only the keys differ
-				pub, _ := pl.owner.SignAs([]byte("x"), pos)
-				tx.Signature.PublicKey = pub
-			}
-			b.raw, b.wireAddr, b.sigValid = txlab.MustMarshal(tx), pl.owner.Addr, false
-		}
-	}
-	return b
 }
 
 // ---------------------------------------------------------------------------------------
@@ -423,19 +96,19 @@ func setField(m *txlab.Msg, f *txlab.Field) {
 	sort.SliceStable(m.Fields, func(i, j int) bool { return m.Fields[i].Num < m.Fields[j].Num })
 }
 
-func tampers(l *txlab.Lab, b *built) []tamper {
-	root, err := txlab.Parse(b.raw, txlab.TxSchema, "")
+func tampers(l *txlab.Lab, b *txlab.Built) []tamper {
+	root, err := txlab.Parse(b.Raw, txlab.TxSchema, "")
 	if err != nil {
 		return nil
 	}
-	base := txlab.BaseKind(b.id.Kind)
+	base := txlab.BaseKind(b.ID.Kind)
 	p := l.W.P[base]
 	var out []tamper
 	add := func(id, class string, mut func(m *txlab.Msg)) {
 		c := root.Clone()
 		mut(c)
 		raw := c.Encode()
-		if !bytes.Equal(raw, b.raw) {
+		if !bytes.Equal(raw, b.Raw) {
 			out = append(out, tamper{id: id, class: class, raw: raw})
 		}
 	}
@@ -471,7 +144,7 @@ func tampers(l *txlab.Lab, b *built) []tamper {
 	// every message field (present: changed; absent: injected)
 	inner, err := txlab.Parse(root.At([]uint64{2}).Get(2).Bytes, nil, "")
 	if err == nil {
-		ks := msgFieldKinds[b.id.Msg]
+		ks := msgFieldKinds[b.ID.Msg]
 		for i := 0; i < len(ks); i++ {
 			num, k := uint64(i+1), ks[i]
 			name := fmt.Sprintf("msg.f%d", num)
@@ -562,7 +235,7 @@ func tampers(l *txlab.Lab, b *built) []tamper {
 	if same, ok := p[txlab.PX]; ok {
 		swap["same-kind:"+base] = same.Pub
 		if base == "ms" {
-			pub, _ := same.SignAs([]byte("x"), txlab.MsPositions(b.id.Kind))
+			pub, _ := same.SignAs([]byte("x"), txlab.MsPositions(b.ID.Kind))
 			swap["same-kind:"+base] = pub
 		}
 	}
@@ -573,12 +246,12 @@ func tampers(l *txlab.Lab, b *built) []tamper {
 	}
 	// another kind of key for the SAME secp256k1 scalar (eth <-> secp256k1 share the curve)
 	if base == txlab.KETH || base == txlab.KSECP {
-		if e := b.actual.ECDSA(); e != nil {
+		if e := b.Actual.ECDSA(); e != nil {
 			if base == txlab.KETH {
-				k, _ := crypto.BytesToSECP256K1Private(b.actual.Priv.Bytes())
+				k, _ := crypto.BytesToSECP256K1Private(b.Actual.Priv.Bytes())
 				swap["same-scalar:secp256k1"] = k.PublicKey().Bytes()
 			} else {
-				k, _ := crypto.BytesToEthSECP256K1Private(b.actual.Priv.Bytes())
+				k, _ := crypto.BytesToEthSECP256K1Private(b.Actual.Priv.Bytes())
 				swap["same-scalar:eth"] = k.PublicKey().Bytes()
 			}
 		}
@@ -599,12 +272,13 @@ func tampers(l *txlab.Lab, b *built) []tamper {
 // worker
 
 type Job struct {
-	Kind     string  `json:"kind"`
-	Msg      string  `json:"msg"`
-	Thorough bool    `json:"thorough"`
-	Confirm  *CaseID `json:"confirm,omitempty"` // commit-confirm job
-	Want     string  `json:"want,omitempty"`    // expected diff digest of the probe
-	Only     *CaseID `json:"only,omitempty"`    // replay of one case
+	Kind     string        `json:"kind"`
+	Msg      string        `json:"msg"`
+	Thorough bool          `json:"thorough"`
+	Confirm  *txlab.CaseID `json:"confirm,omitempty"` // commit-confirm job
+	Want     string        `json:"want,omitempty"`    // expected diff digest of the probe
+	Seq      uint64        `json:"seq,omitempty"`     // sequence number the probe used (time / fee entropy)
+	Only     *txlab.CaseID `json:"only,omitempty"`    // replay of one case
 }
 
 type Result struct {
@@ -613,8 +287,9 @@ type Result struct {
 	Tampered      int            `json:"tampered"`
 	NA            int            `json:"na"`
 	AuthSuccess   int            `json:"auth_success"`
-	AuthSuccessID []CaseID       `json:"auth_success_ids,omitempty"`
+	AuthSuccessID []txlab.CaseID `json:"auth_success_ids,omitempty"`
 	AuthDigests   []string       `json:"auth_digests,omitempty"`
+	AuthSeq       []uint64       `json:"auth_seq,omitempty"`
 	Outcomes      map[string]int `json:"outcomes"`
 	Parts         map[string]int `json:"parts"`
 	Viols         []mc.Viol      `json:"viols,omitempty"`
@@ -659,14 +334,18 @@ type evalOut struct {
 	changed bool
 	diff    []txlab.Change
 	err     string
+	state   []env.KV // block path only
 }
 
 // evaluate runs one byte string through every path with the cache cold and warm.
-func evaluate(raw []byte, paths []string) []evalOut {
+func evaluate(raw []byte, paths []string, blockWarm bool) []evalOut {
 	var outs []evalOut
 	for _, path := range paths {
 		crypto.SignatureCache.Reset()
 		for _, cache := range []string{"cold", "warm"} {
+			if path == "block" && cache == "warm" && !blockWarm {
+				continue
+			}
 			o := evalOut{path: path, cache: cache}
 			switch path {
 			case "block":
@@ -680,6 +359,7 @@ func evaluate(raw []byte, paths []string) []evalOut {
 						o.err = pr.Failed[0]
 					}
 					o.diff = txlab.Diff(baseBlock, pr.State)
+					o.state = pr.State
 				}
 			case "single":
 				after, e := lab.ProbeSingle(raw)
@@ -699,7 +379,7 @@ func evaluate(raw []byte, paths []string) []evalOut {
 
 // fineOracle: no account is debited and no validator / order is altered unless the wire
 // signer is the owner of that object.
-func fineOracle(b *built, diff []txlab.Change) string {
+func fineOracle(b *txlab.Built, diff []txlab.Change) string {
 	w := lab.W
 	for _, c := range diff {
 		segs := txlab.KeySegments(c.Key)
@@ -712,40 +392,40 @@ func fineOracle(b *built, diff []txlab.Change) string {
 			_ = lib.Unmarshal(c.Old, o)
 			_ = lib.Unmarshal(c.New, n)
 			addr := segs[len(segs)-1]
-			if n.Amount < o.Amount && !bytes.Equal(addr, b.wireAddr) {
-				return fmt.Sprintf("account %x debited %d -> %d by a transaction of %x", addr, o.Amount, n.Amount, b.wireAddr)
+			if n.Amount < o.Amount && !bytes.Equal(addr, b.WireAddr) {
+				return fmt.Sprintf("account %x debited %d -> %d by a transaction of %x", addr, o.Amount, n.Amount, b.WireAddr)
 			}
 		case 3:
-			if b.id.Msg == fsm.MessageCertificateResultsName {
+			if b.ID.Msg == fsm.MessageCertificateResultsName {
 				continue
 			}
 			addr := segs[len(segs)-1]
 			if vi, ok := w.Vals[hex.EncodeToString(addr)]; ok {
-				if !bytes.Equal(vi.Operator.Addr, b.wireAddr) && !bytes.Equal(vi.Output.Addr, b.wireAddr) {
-					return fmt.Sprintf("validator %s altered by %x (neither operator nor output)", vi.Operator.Name, b.wireAddr)
+				if !bytes.Equal(vi.Operator.Addr, b.WireAddr) && !bytes.Equal(vi.Output.Addr, b.WireAddr) {
+					return fmt.Sprintf("validator %s altered by %x (neither operator nor output)", vi.Operator.Name, b.WireAddr)
 				}
 			} else if c.New != nil {
 				n := new(fsm.Validator)
 				_ = lib.Unmarshal(c.New, n)
-				if !bytes.Equal(n.Address, b.wireAddr) && !bytes.Equal(n.Output, b.wireAddr) {
-					return fmt.Sprintf("validator %x created by %x (neither operator nor output)", addr, b.wireAddr)
+				if !bytes.Equal(n.Address, b.WireAddr) && !bytes.Equal(n.Output, b.WireAddr) {
+					return fmt.Sprintf("validator %x created by %x (neither operator nor output)", addr, b.WireAddr)
 				}
 			}
 		case 13:
-			if b.id.Msg == fsm.MessageCertificateResultsName {
+			if b.ID.Msg == fsm.MessageCertificateResultsName {
 				continue
 			}
 			oid := segs[len(segs)-1]
 			if os, ok := w.Orders[hex.EncodeToString(oid)]; ok {
 				seller := w.P[os.Kind][os.Seller]
-				if !bytes.Equal(seller.Addr, b.wireAddr) {
-					return fmt.Sprintf("order %x of %s altered by %x", oid, seller.Name, b.wireAddr)
+				if !bytes.Equal(seller.Addr, b.WireAddr) {
+					return fmt.Sprintf("order %x of %s altered by %x", oid, seller.Name, b.WireAddr)
 				}
 			} else if c.New != nil {
 				n := new(lib.SellOrder)
 				_ = lib.Unmarshal(c.New, n)
-				if !bytes.Equal(n.SellersSendAddress, b.wireAddr) {
-					return fmt.Sprintf("order %x created with seller %x by %x", oid, n.SellersSendAddress, b.wireAddr)
+				if !bytes.Equal(n.SellersSendAddress, b.WireAddr) {
+					return fmt.Sprintf("order %x created with seller %x by %x", oid, n.SellersSendAddress, b.WireAddr)
 				}
 			}
 		}
@@ -755,9 +435,9 @@ func fineOracle(b *built, diff []txlab.Change) string {
 
 func kindClass(kind string) string { return kind }
 
-func judge(res *Result, b *built, raw []byte, tam *tamper, outs []evalOut) {
-	id := b.id
-	okRef := b.authorized() && b.sigValid && tam == nil
+func judge(res *Result, b *txlab.Built, raw []byte, tam *tamper, outs []evalOut) {
+	id := b.ID
+	okRef := b.Authorized() && b.SigValid && tam == nil
 	for _, o := range outs {
 		res.Evaluations++
 		key := fmt.Sprintf("%s|changed=%v|%s", o.path, o.changed || (o.path == "checktx" && o.err == ""), txlab.ErrClass(o.err))
@@ -766,6 +446,13 @@ func judge(res *Result, b *built, raw []byte, tam *tamper, outs []evalOut) {
 		accepted := o.changed
 		if o.path == "checktx" {
 			accepted = o.err == ""
+		}
+		if o.path == "checktx" && id.Mode == txlab.ModeClaim {
+			// CheckTx only matches the signer against the proposer key on the wire; whether the
+			// committee certified that key is decided when the message is handled (the certificate's
+			// aggregate signature covers the proposer key). Admission changes no state: information only.
+			res.Parts["info:checktx-admits-relabelled-certificate-before-qc-verification"]++
+			continue
 		}
 		if accepted && !okRef {
 			var sig, why string
@@ -776,12 +463,12 @@ func judge(res *Result, b *built, raw []byte, tam *tamper, outs []evalOut) {
 				replay["case"] = id2
 				sig = fmt.Sprintf("C05:tampered-tx-accepted:%s:%s:%s", id.Msg, tam.class, o.path)
 				why = "transaction tampered after signing (" + tam.id + ")"
-			case !b.sigValid:
+			case !b.SigValid:
 				sig = fmt.Sprintf("C05:invalid-signature-accepted:%s:%s:%s:%s", id.Msg, kindClass(id.Kind), id.Mode, o.path)
 				why = "the signature is not a valid signature of the wire key over this content (by construction)"
 			default:
 				sig = fmt.Sprintf("C05:unauthorized-signer-accepted:%s:%s:%s:%s", id.Msg, id.Role, id.Target, o.path)
-				why = fmt.Sprintf("signer %s (%x) is not in the reference authorized set %v", b.actual.Name, b.wireAddr, names(b.auth))
+				why = fmt.Sprintf("signer %s (%x) is not in the reference authorized set %v", b.Actual.Name, b.WireAddr, names(b.Auth))
 			}
 			res.Viols = append(res.Viols, mc.Viol{Sig: sig, What: fmt.Sprintf("%s path=%s cache=%s: %s; state diff: %v", id, o.path, o.cache, why, txlab.DescribeDiff(o.diff, lab.W)), Replay: replay})
 		}
@@ -807,12 +494,12 @@ func names(ss []*txlab.Signer) []string {
 }
 
 func modesFor(msg, role string) []string {
-	m := []string{modeHonest}
+	m := []string{txlab.ModeHonest}
 	if role == "stranger" {
-		m = append(m, modeForge)
+		m = append(m, txlab.ModeForge)
 	}
 	if msg == fsm.MessageCertificateResultsName && (role == "stranger" || role == "nonproposer" || role == "otherval") {
-		m = append(m, modeClaim)
+		m = append(m, txlab.ModeClaim)
 	}
 	return m
 }
@@ -834,28 +521,29 @@ func runJob(j Job) (res Result) {
 	for _, target := range targetsFor(j.Msg) {
 		for _, role := range roles {
 			for _, mode := range modesFor(j.Msg, role) {
-				id := CaseID{Msg: j.Msg, Kind: j.Kind, Target: target, Role: role, Mode: mode}
+				id := txlab.CaseID{Msg: j.Msg, Kind: j.Kind, Target: target, Role: role, Mode: mode}
 				if j.Only != nil && (id.Target != j.Only.Target || id.Role != j.Only.Role || id.Mode != j.Only.Mode) {
 					continue
 				}
 				seq++
-				b := build(lab, id, seq)
-				if b.na != "" {
+				b := txlab.Build(lab, id, seq)
+				if b.NA != "" {
 					res.NA++
-					res.Parts["na:"+b.na]++
+					res.Parts["na:"+b.NA]++
 					continue
 				}
 				res.Cases++
 				res.Parts["base:"+j.Msg]++
-				outs := evaluate(b.raw, allPaths)
-				judge(&res, b, b.raw, nil, outs)
+				blockWarm := j.Thorough || txlab.BaseKind(j.Kind) == txlab.KED
+				outs := evaluate(b.Raw, allPaths, blockWarm)
+				judge(&res, b, b.Raw, nil, outs)
 				blockChanged := outs[0].changed
 				if len(res.Samples) < 2 && (blockChanged || role == "stranger") {
-					res.Samples = append(res.Samples, map[string]any{"case": id.String(), "authorized_ref": b.authorized(), "sig_valid_ref": b.sigValid,
-						"block_path": txlab.ShortErr(outs[0].err), "changed": blockChanged, "diff": txlab.DescribeDiff(outs[0].diff, lab.W), "tx_hex": hex.EncodeToString(b.raw)})
+					res.Samples = append(res.Samples, map[string]any{"case": id.String(), "authorized_ref": b.Authorized(), "sig_valid_ref": b.SigValid,
+						"block_path": txlab.ShortErr(outs[0].err), "changed": blockChanged, "diff": txlab.DescribeDiff(outs[0].diff, lab.W), "tx_hex": hex.EncodeToString(b.Raw)})
 				}
-				if !(blockChanged && b.authorized() && b.sigValid) {
-					if b.authorized() && b.sigValid {
+				if !(blockChanged && b.Authorized() && b.SigValid) {
+					if b.Authorized() && b.SigValid {
 						res.Parts["authorized-but-rejected:"+txlab.ErrClass(outs[0].err)]++
 					}
 					continue
@@ -864,6 +552,7 @@ func runJob(j Job) (res Result) {
 				res.Parts["auth-success:"+j.Msg]++
 				res.AuthSuccessID = append(res.AuthSuccessID, id)
 				res.AuthDigests = append(res.AuthDigests, txlab.DiffDigest(outs[0].diff))
+				res.AuthSeq = append(res.AuthSeq, seq)
 				// tamper every field of the authorized, successful transaction
 				ts := tampers(lab, b)
 				if j.Only != nil && j.Only.Tamper != "" {
@@ -905,17 +594,22 @@ func runJob(j Job) (res Result) {
 				// The block path reaches the cache through the same VerifyBytes as the single path for
 				// every kind but ed25519 (explicit look-ups in the batch verifier): quick runs
 				// block+warm only there, thorough everywhere.
+				firstOfJob := res.AuthSuccess == 1
 				for _, se := range []struct{ path, cache string }{{"block", "cold"}, {"block", "warm"}, {"single", "cold"}, {"single", "warm"}} {
-					if se.path == "block" && se.cache == "warm" && !j.Thorough && txlab.BaseKind(j.Kind) != txlab.KED {
-						continue
+					if se.path == "block" && !j.Thorough {
+						// quick: individual block-path probes for the first authorized success of the job
+						// (every later one goes through the batched blocks below); warm only for ed25519
+						if !firstOfJob || (se.cache == "warm" && txlab.BaseKind(j.Kind) != txlab.KED) {
+							continue
+						}
 					}
 					prime := func() {
 						crypto.SignatureCache.Reset()
 						if se.cache == "warm" {
 							if se.path == "block" {
-								lab.ProbeBlock([][]byte{b.raw}, false)
+								lab.ProbeBlock([][]byte{b.Raw}, false)
 							} else {
-								lab.ProbeSingle(b.raw)
+								lab.ProbeSingle(b.Raw)
 							}
 						}
 					}
@@ -925,6 +619,40 @@ func runJob(j Job) (res Result) {
 						touts[i] = append(touts[i], o)
 						if o.err == "" {
 							prime()
+						}
+					}
+				}
+				// batched blocks: (1) all tampered variants together — the block must equal the empty
+				// block; (2) the valid original followed by all tampered variants — one batch holding
+				// good and bad signatures (batch-fail fallback) must equal the block with the original alone.
+				if len(ts) > 0 && j.Only == nil {
+					var all [][]byte
+					for _, t := range ts {
+						all = append(all, t.raw)
+					}
+					for _, mixed := range []bool{false, true} {
+						crypto.SignatureCache.Reset()
+						txs, want, label := all, baseBlock, "block-batch"
+						if mixed {
+							txs, want, label = append([][]byte{b.Raw}, all...), outs[0].state, "block-batch-mixed"
+						}
+						pr := lab.ProbeBlock(txs, false)
+						res.Evaluations++
+						res.Parts[label]++
+						wantIncluded := 0
+						if mixed {
+							wantIncluded = 1
+						}
+						var d []txlab.Change
+						if pr.Err == "" {
+							d = txlab.Diff(want, pr.State)
+						}
+						res.Outcomes[fmt.Sprintf("%s|changed=%v|included=%d", label, len(d) > 0, pr.Included-wantIncluded)]++
+						if pr.Err != "" || len(d) > 0 || pr.Included != wantIncluded {
+							res.Viols = append(res.Viols, mc.Viol{Sig: fmt.Sprintf("C05:tampered-tx-accepted:%s:%s", id.Msg, label),
+								What: fmt.Sprintf("%s: a block holding %d tampered variants (mixed=%v) included %d transactions (want %d), err=%q, diff beyond the reference block: %v",
+									id, len(all), mixed, pr.Included, wantIncluded, pr.Err, txlab.DescribeDiff(d, lab.W)),
+								Replay: map[string]any{"case": id, "path": label}})
 						}
 					}
 				}
@@ -954,13 +682,13 @@ func runConfirm(j Job) (res Result) {
 		}
 		var txs [][]byte
 		if i == 1 {
-			b := build(l, *j.Confirm, 1)
-			if b.na != "" {
+			b := txlab.Build(l, *j.Confirm, j.Seq)
+			if b.NA != "" {
 				l.Close()
-				res.Err = "confirm case not buildable: " + b.na
+				res.Err = "confirm case not buildable: " + b.NA
 				return
 			}
-			txs = [][]byte{b.raw}
+			txs = [][]byte{b.Raw}
 		}
 		cm, e := l.C.Step(env.BlockSpec{Proposer: 0, Txs: txs})
 		if e != nil {
@@ -1022,8 +750,10 @@ func main() {
 		return
 	}
 	var jobs []Job
-	for _, m := range txlab.MsgTypes {
-		for _, k := range kinds {
+	// kind-major order: if the deadline cuts the run, every message type has been covered for the
+	// kinds that were reached
+	for _, k := range kinds {
+		for _, m := range txlab.MsgTypes {
 			jobs = append(jobs, Job{Kind: k, Msg: m, Thorough: !r.Quick()})
 		}
 	}
@@ -1076,7 +806,7 @@ func main() {
 				break
 			}
 			id := id
-			confirm = append(confirm, Job{Confirm: &id, Want: res.AuthDigests[n]})
+			confirm = append(confirm, Job{Confirm: &id, Want: res.AuthDigests[n], Seq: res.AuthSeq[n]})
 		}
 	}
 	if done < len(jobs) {
@@ -1146,7 +876,7 @@ func main() {
 
 func doReplay(r *mc.Run) {
 	var rp struct {
-		Case CaseID `json:"case"`
+		Case txlab.CaseID `json:"case"`
 	}
 	if err := r.LoadReplay(&rp); err != nil {
 		fmt.Println("cannot load replay:", err)
